@@ -11,7 +11,7 @@ import driver
 
 M30 = 0x3FFFFFFF
 KINDS = {0: (1, 0, 0), 1: (0, 1, 0), 2: (0, 0, 1), 3: (0, 0, 1), 4: (0, 0, 0)}   # type -> (timer, direct, rearm)
-OBS = {1: "lock", 2: "unlock", 3: "flags load (checked only)", 4: "flags load (model read)", 5: "or flags", 6: "and flags",
+OBS = {22: "load du_state", 1: "lock", 2: "unlock", 3: "flags load (checked only)", 4: "flags load (model read)", 5: "or flags", 6: "and flags",
        7: "casw flags", 8: "cas flags", 9: "store du_state", 10: "xchg pending", 11: "write pending", 12: "xchg handler",
        13: "futex wait", 14: "futex ret", 15: "futex wake", 16: "api call", 17: "api ret", 18: "callout begin", 19: "callout end",
        20: "skip", 21: "unexpected event", 0: "(list empty)", -1: "-"}
@@ -44,7 +44,9 @@ def select(evs, first, endseq):
             if e.kind != 1:
                 out.append(e)
         elif f == 3:
-            if e.kind == 2:
+            if e.kind == 1:
+                out.append(e)
+            elif e.kind == 2:
                 # a store that is the second half of set_bit / clear_bit: keep the value the thread loaded just before
                 if e0 is not None and e0.obj % 8 == 3 and e0.kind == 1:
                     e.a, e.off = e0.a, 1
@@ -119,6 +121,22 @@ def order(threads):
                 w = nodes[m][2]
                 if zero < sq < e.seq and nodes[m][0] != ti and not (w.kind in (2, 3) and w.b == 0):
                     extra.append((m, idx[(ti, j)]))
+
+    # du_state: a store that carries the value its thread loaded just before (set_bit / clear_bit / unregistration) comes after
+    # the store that wrote that value; repair the rare inversions of the stamps
+    us = sorted((e.seq, n) for n, (ti, k, e) in enumerate(nodes) if e.obj % 8 == 3 and e.kind == 2)
+    for pos, (sq, n) in enumerate(us):
+        e = nodes[n][2]
+        if e.off != 1:
+            continue
+        prevv = nodes[us[pos - 1][1]][2].b if pos > 0 else 0
+        if prevv == e.a:
+            continue
+        for sq2, m in us[pos + 1:pos + 6]:
+            w = nodes[m][2]
+            if nodes[m][0] != nodes[n][0] and w.b == e.a:
+                extra.append((m, n))
+                break
 
     def topo(more):
         deg = list(indeg)
